@@ -73,6 +73,35 @@ Proof. exact update_complete. Qed.
 Theorem C03_noop : forall size m b t fuel, update size false m b t fuel = Ok m /\ update size true m [] t fuel = Ok m.
 Proof. intros. split; [apply update_crn_off | apply update_nil]. Qed.
 
+(* ---- the public lookup IndexMap[index] (what every randomness stream uses), over the same maps ---- *)
+(* every registered simulant can be looked up and gets the position of its own row, in request order *)
+Theorem C03_lookup_registered : forall m idx, NoDup (map e_sim m) ->
+  (forall s, In s idx -> exists k p, In (s, k, p) m) -> idx <> [] ->
+  exists ps, getitem_all true m idx = Ok ps /\ Forall2 (fun s p => exists k, In (s, k, p) m) idx ps.
+Proof. exact getitem_all_spec. Qed.
+
+(* distinct simulants are handed distinct positions *)
+Theorem C03_lookup_injective : forall m idx ps, Inj m -> NoDup idx -> getitem_all true m idx = Ok ps -> NoDup ps.
+Proof. exact getitem_all_injective. Qed.
+
+(* an answer once given is given again after any later registration *)
+Theorem C03_lookup_stable : forall size crn m b t fuel m' idx ps, Inj m -> NoDup (map e_sim m') ->
+  update size crn m b t fuel = Ok m' -> getitem_all true m idx = Ok ps -> getitem_all true m' idx = Ok ps.
+Proof. exact getitem_all_stable. Qed.
+
+(* CRN off: the labels themselves; nothing registered yet: RandomnessError, whatever is asked *)
+Theorem C03_lookup_edges : forall m idx, getitem_all false m idx = Ok idx /\ getitem_all true [] idx = Rejected ERandomness.
+Proof. intros. split; reflexivity. Qed.
+
+(* ---- RandomnessManager: the block has at least ten positions per initial simulant; a frame without a key column is
+   refused before the map is touched ---- *)
+Theorem C03_block_size_floor : forall cfg pop, 10 * pop <= manager_size cfg pop /\ cfg <= manager_size cfg pop.
+Proof. exact manager_size_floor. Qed.
+
+Theorem C03_missing_key_column_rejected : forall size kcols m labels f t fuel c,
+  In c kcols -> zassoc c f = None -> register size kcols m labels f t fuel = Rejected ERandomness.
+Proof. exact register_missing_column. Qed.
+
 (* ---- liveness, PARTIAL: the collision loop finishes within W * |batch| rounds IF every key's salt walk visits
    every position in every window of W consecutive salts, and the map has room for the batch.  The coverage
    hypothesis is about the concrete hash; it holds e.g. for one key column and gcd(111111, size) = 1 (W = size) as
@@ -83,6 +112,32 @@ Theorem C03_fuel_partial : forall size W m b t fuel,
   Inj m -> Z.of_nat (length m + length b) <= size -> (W * length b <= fuel)%nat ->
   update size true m b t fuel <> OutOfFuel.
 Proof. exact update_terminates. Qed.
+
+(* ... and the coverage hypothesis PROVED for the concrete hash in the one-column case: a batch of one-column keys in a
+   block whose size is coprime to 111111 = 3*7*11*13*37 (the default 10^6 is) is registered within size * |batch|
+   rounds.  [no_wrap c]: the int64 sum "prime-power product of the column + ten-digit salt" does not wrap for this key
+   (true for all keys but those whose product lies in the top 10^10 values of the int64 range).  The last two
+   hypotheses keep 111111 * salt below 2^63 and - unless the size divides 10^10 - below 10^10, where the ten-digit
+   reduction of the salt restarts the walk.  Proof: the walk s -> (P + 111111 s) mod size is injective on a window of
+   `size` salts (Gauss), hence onto.
+   WHY NOT MORE: with n key columns the salt is added n times, the walk advances by n * 111111 and visits only
+   size / gcd(n * 111111, size) residues: for the default 10^6 and two columns it stays in one parity class, so the
+   coverage hypothesis is FALSE there (termination then depends on which residue classes have room - not a property
+   of the hash alone); and a key whose sum wraps shifts its walk by 2^64 mod size once inside the window. *)
+Theorem C03_fuel_single_column : forall size m b t fuel,
+  0 < size -> Z.gcd 111111 size = 1 ->
+  (forall k, In k (map snd b) -> exists c, k = [c] /\ no_wrap c) ->
+  Inj m -> Z.of_nat (length m + length b) <= size ->
+  111111 * (1 + size * Z.of_nat (length b)) <= 2 ^ 63 ->
+  ((size | 10 ^ 10) \/ 111111 * (1 + size * Z.of_nat (length b)) <= 10 ^ 10) ->
+  (Z.to_nat size * length b <= fuel)%nat ->
+  update size true m b t fuel <> OutOfFuel.
+Proof. exact update_terminates_single_column. Qed.
+
+(* the salt walk of a one-column key, in closed form *)
+Theorem C03_salt_walk_single_column : forall size c s, 0 <= 111111 * s < 2 ^ 63 -> no_wrap c ->
+  h_salt size s [c] = (col_prod (conv10 c) primes 1 + (111111 * s) mod 10 ^ 10) mod size.
+Proof. exact h_salt_single. Qed.
 
 (* ---- the model's arithmetic is the arithmetic written in the code ---- *)
 Theorem C03_wrap64_is_twos_complement : forall x, wrap64 x = (x + 2 ^ 63) mod 2 ^ 64 - 2 ^ 63.
@@ -123,6 +178,39 @@ Example ex_cover_sample : forall p, In p [0;1;2;3;4;5;6;7;8;9] ->
   existsb (fun j => h_salt 10 (1 + j) [KInt 5] =? p) [0;1;2;3;4;5;6;7;8;9] = true.
 Proof. intros p H. repeat (destruct H as [<-|H]; [vm_compute; reflexivity|]). destruct H. Qed.
 
+(* lookups on the map of ex_history: request order, a repeated label, an unknown label (6 was refused), no map yet *)
+Example ex_lookups :
+  let m := [(0, [KInt 5], 7); (1, [KInt 15], 5); (2, [KInt 25], 8); (3, [KInt 3], 1); (4, [KInt 7], 2); (5, [KInt 8], 6); (7, [KInt 9], 9)] in
+  getitem_all true m [7; 0; 3; 0] = Ok [9; 7; 1; 7] /\ getitem_all true m [0; 6] = Rejected EOther /\
+  getitem_all true m [] = Ok [] /\ getitem_all true [] [] = Rejected ERandomness.
+Proof. vm_compute. auto. Qed.
+(* a frame with the columns (30, 10, 20), key columns configured as (20, 10): rows are (col 20, col 10) *)
+Example ex_register :
+  register 10 [20; 10] [] [4; 5] [(30, [KBad; KBad]); (10, [KInt 1; KInt 2]); (20, [KInt 7; KInt 8])] (KInt 0) 40
+  = update 10 true [] [(4, [KInt 7; KInt 1]); (5, [KInt 8; KInt 2])] (KInt 0) 40 /\
+  register 10 [20; 11] [] [4; 5] [(30, [KBad; KBad]); (10, [KInt 1; KInt 2]); (20, [KInt 7; KInt 8])] (KInt 0) 40 = Rejected ERandomness /\
+  manager_size 1000000 50 = 1000000 /\ manager_size 1 6 = 60.
+Proof. vm_compute. auto. Qed.
+
+(* C03_fuel_single_column is not vacuous: three one-column keys in the DEFAULT block of 10^6 positions, any clock *)
+Example ex_default_block_terminates : forall t fuel, (Z.to_nat 1000000 * 3 <= fuel)%nat ->
+  update 1000000 true [] [(0, [KInt 5]); (1, [KInt 15]); (2, [KFloat 3 1])] t fuel <> OutOfFuel.
+Proof.
+  intros t fuel Hf. apply C03_fuel_single_column.
+  - reflexivity.
+  - vm_compute. reflexivity.
+  - intros k [<-|[<-|[<-|[]]]]; eexists; (split; [reflexivity | unfold no_wrap; vm_compute; reflexivity]).
+  - constructor.
+  - simpl. lia.
+  - vm_compute. discriminate.
+  - left. exists 10000. reflexivity.
+  - exact Hf.
+Qed.
+(* ... and with two columns in an even block the walk really is confined to one parity class *)
+Example ex_two_columns_parity :
+  map (fun s => h_salt 10 s [KInt 5; KInt 7] mod 2) [1; 2; 3; 4; 5; 6; 7; 8; 9; 10] = [0; 0; 0; 0; 0; 0; 0; 0; 0; 0].
+Proof. vm_compute. reflexivity. Qed.
+
 Print Assumptions C03_hash_in_range.
 Print Assumptions C03_in_range.
 Print Assumptions C03_in_range_history.
@@ -137,6 +225,14 @@ Print Assumptions C03_unique_accepted.
 Print Assumptions C03_rejected_inert.
 Print Assumptions C03_complete.
 Print Assumptions C03_noop.
+Print Assumptions C03_lookup_registered.
+Print Assumptions C03_lookup_injective.
+Print Assumptions C03_lookup_stable.
+Print Assumptions C03_lookup_edges.
+Print Assumptions C03_block_size_floor.
+Print Assumptions C03_missing_key_column_rejected.
 Print Assumptions C03_fuel_partial.
+Print Assumptions C03_fuel_single_column.
+Print Assumptions C03_salt_walk_single_column.
 Print Assumptions C03_wrap64_is_twos_complement.
 Print Assumptions C03_digit_walk_is_digit.
